@@ -526,7 +526,7 @@ func followUps(c *core.Ctx, e *entry, input []byte, val any) {
 			return
 		}
 		var formatted string
-		if !run("followup:Format", func() { formatted = fmt.Sprintf("%v|%s|%+v|%q", it, it, it, it) }) {
+		if !run("followup:Format", func() { formatted = fmt.Sprintf("%v|%s|%+v|%q", it, it, it, it) + formatMore(val) }) {
 			return
 		}
 		if !checkFormatted(c, e, input, formatted) {
@@ -534,7 +534,7 @@ func followUps(c *core.Ctx, e *entry, input []byte, val any) {
 		}
 	} else {
 		var formatted string
-		if !run("followup:Format", func() { formatted = fmt.Sprintf("%v|%s|%+v", val, val, val) }) {
+		if !run("followup:Format", func() { formatted = fmt.Sprintf("%v|%s|%+v", val, val, val) + formatMore(val) }) {
 			return
 		}
 		if !checkFormatted(c, e, input, formatted) {
@@ -623,6 +623,49 @@ func followUps(c *core.Ctx, e *entry, input []byte, val any) {
 			return
 		}
 	}
+}
+
+// formatMore: what else a caller may write in a format string – other verbs, flags, a width, a
+// precision – on the value and on the language values and texts it holds (at most six of them).
+func formatMore(val any) string {
+	const f = "|%x|% X|%d|%c|%U|%#v|%.3s|%.40s|%10.2v|%-12q|%+q|%08v"
+	out := fmt.Sprintf(f, val, val, val, val, val, val, val, val, val, val, val, val)
+	n := 0
+	var walk func(v reflect.Value, depth int)
+	walk = func(v reflect.Value, depth int) {
+		if !v.IsValid() || depth > 3 || n >= 6 {
+			return
+		}
+		switch v.Type() {
+		case reflect.TypeOf(ap.NaturalLanguageValues(nil)):
+			if v.Len() > 0 && v.CanInterface() {
+				n++
+				nlv := v.Interface().(ap.NaturalLanguageValues)
+				out += fmt.Sprintf(f, nlv, nlv, nlv, nlv, nlv, nlv, nlv, nlv, nlv, nlv, nlv, nlv)
+				out += fmt.Sprintf(f, nlv[0], nlv[0], nlv[0], nlv[0], nlv[0], nlv[0], nlv[0], nlv[0], nlv[0], nlv[0], nlv[0], nlv[0])
+				c0 := nlv[0].Value
+				out += fmt.Sprintf(f, c0, c0, c0, c0, c0, c0, c0, c0, c0, c0, c0, c0)
+			}
+			return
+		}
+		switch v.Kind() {
+		case reflect.Ptr, reflect.Interface:
+			if !v.IsNil() {
+				walk(v.Elem(), depth)
+			}
+		case reflect.Struct:
+			for i := 0; i < v.NumField(); i++ {
+				if fv := v.Field(i); fv.CanInterface() {
+					switch fv.Kind() {
+					case reflect.Slice, reflect.Ptr, reflect.Interface, reflect.Struct:
+						walk(fv, depth+1)
+					}
+				}
+			}
+		}
+	}
+	walk(reflect.ValueOf(val), 0)
+	return out
 }
 
 // listsOf collects the non-empty item lists a decoded value holds (at most 12).
@@ -865,6 +908,10 @@ func runDeep(c *core.Ctx, g *gen.G) {
 func runLongText(c *core.Ctx, g *gen.G) {
 	t := c.Tape
 	size := []int{32 << 10, 96 << 10, 256 << 10, 512 << 10}[t.Draw(4)]
+	if t.Bool(1, 8) {
+		// a book chapter, a log dump: texts of several megabytes do get posted
+		size = []int{2 << 20, 5 << 20}[t.Draw(2)]
+	}
 	pieces := [][]string{
 		{"<p>line of text with a \"quote\" and a back\\slash</p>\n", "second\tline\r\n", "é ü 日本 \U0001F600 "},
 		{`\n`, `\"`, `\\`, `\t`, "x"}, // the escapes spelled out, as a doubly encoded text carries them
